@@ -794,7 +794,6 @@ func (s *sided) flowSide(e ast.Expr) string {
 	return ""
 }
 
-
 // loopExitIssues — a deep copy visits every element of an array, slice or map: a `return`, `break` or `goto` inside an element loop
 // (not inside a function literal, and a break not belonging to an inner switch/select) leaves the elements after it uncopied — the
 // destination keeps whatever it held there, or the zero value. A `continue` skips only the rest of one element's copy and is judged
